@@ -4,6 +4,7 @@ kind - which authorisation facts the Rust text currently has:
 * `auth_skip_<handler>`   : the handler contains the `uid != BYPASS_USER_ID &&` shortcut;
 * `auth_ident_<kind>`     : the `dispatch_command` arm of the kind passes `user_id` to its handler;
 * `auth_validate_rejects_reserved` : `validate_user_id` mentions the reserved ids;
+* `auth_verify_rejects_reserved`   : `verify_signature` refuses the reserved ids;
 * `auth_query_checks_sequence`     : the QUERY handler looks at `event_sequence` before executing.
 
 The model branches on these, so an edit to any of them changes the model that the theorems
@@ -99,6 +100,9 @@ def gen(out):
                 r"if !user_key\.active", r"user_id\.is_empty\(\) \|\| user_id\.len\(\) > MAX_USER_ID_LENGTH"]:
         if not re.search(pat, src):
             raise Missing(f"{rel}: {pat}")
+
+    vs = fn_body(src, rel, "verify_signature")
+    out.append(f"Definition auth_verify_rejects_reserved : bool := {b('BYPASS_USER_ID' in vs or (chr(34) + bypass + chr(34)) in vs)}.")
 
     # token expiry comparison and token length bound of the TCP gate
     rel = "src/engine/auth/manager.rs"
